@@ -36,6 +36,7 @@ type hSecret struct {
 	held    bool
 	consumed int // number of successful operations that consumed it
 	seenSpent bool
+	uncertain bool // touched by a crash cut / injected fault / concurrent request: harness-side truth monitors skip it
 }
 
 type hB struct {
@@ -107,6 +108,9 @@ type Hist struct {
 	lnFaulty bool // the Lightning backend is currently scripted to answer with errors
 	lastSnap string
 	stats  map[string]int
+	cuts   bool     // the history contains cuts/faults/schedules: the counter-based conservation monitor is replaced by the store-based one
+	lastLog []string // storage/Lightning calls made by the last executed operation
+	sigSuffix string // appended to monitor signatures raised while judging a concurrent item
 }
 
 func (c cfgT) S() S {
@@ -421,13 +425,19 @@ type inSpec struct {
 	wit    int64
 	long   bool
 	dleq   bool
+	cSec   *hSecret // cKind 0: the C presented is the one held for this other secret (nil: for sec itself)
+	cNeg   bool     // cKind 1: the junk point is the negation of the genuine C (parity byte flipped)
 }
 
 func (h *Hist) inputS(i inSpec) S {
 	var c S
 	switch i.cKind {
 	case 0:
-		c = L(A(0), A(i.cKs), AU(i.cAmt), A(i.sec.h))
+		cs := i.sec
+		if i.cSec != nil {
+			cs = i.cSec
+		}
+		c = L(A(0), A(i.cKs), AU(i.cAmt), A(cs.h))
 	case 1:
 		c = L(A(1), A(7))
 	default:
@@ -441,9 +451,15 @@ func (h *Hist) inputProof(i inSpec) cashu.Proof {
 	switch i.cKind {
 	case 0:
 		p.C = i.sec.C
+		if i.cSec != nil {
+			p.C = i.cSec.C
+		}
 	case 1:
 		Y, _ := crypto.HashToCurve([]byte("junk point"))
 		p.C = hex.EncodeToString(Y.SerializeCompressed())
+		if i.cNeg && len(i.sec.C) == 66 {
+			p.C = map[byte]string{'2': "03", '3': "02"}[i.sec.C[1]] + i.sec.C[2:]
+		}
 	default:
 		p.C = []string{"zz", "02abcd", "", "05" + strings.Repeat("11", 32)}[h.rng.Intn(4)]
 	}
@@ -566,6 +582,7 @@ func (h *Hist) exec(m mode, op S, f func() (any, error), okS func(any) S, learn 
 	}
 	before := h.lastSnap
 	out := h.wdb.runOp(crashAt, faults, f)
+	h.lastLog = out.log
 	var r S
 	switch {
 	case out.crashed:
@@ -592,7 +609,7 @@ func (h *Hist) exec(m mode, op S, f func() (any, error), okS func(any) S, learn 
 		// C06 monitor: a rejected request (no fault injected) leaves the observable state unchanged,
 		// except that an UNPAID quote whose invoice is settled may be shown PAID (what a poll would report)
 		if before != "" && before != norm {
-			h.sink.Violate("rejected-request-changed-state:"+opName(op)+":"+fmt.Sprint(classify(out.err)),
+			h.sink.Violate("rejected-request-changed-state:"+opName(op)+":"+fmt.Sprint(classify(out.err))+h.sigSuffix,
 				"a request answered with an error changed the observable state", op.String(),
 				map[string]any{"before": before, "after": norm, "error": out.err.Error(), "history": LL(h.items).String()})
 		}
@@ -627,9 +644,23 @@ func (h *Hist) OpRestart(fee uint, rotate bool) {
 	h.tm.Cfg.InputFeePpk = fee
 	h.tm.Cfg.RotateKeyset = rotate
 	op := L(A(11), AU(uint64(fee)), AB(rotate))
-	m, err := mint.LoadMint(h.tm.Cfg)
+	var m *mint.Mint
+	var err error
+	var panicked any
+	func() {
+		defer func() { panicked = recover() }()
+		m, err = mint.LoadMint(h.tm.Cfg)
+	}()
 	h.tm.Cfg.RotateKeyset = false
 	var r S
+	if panicked != nil {
+		// the mint does not come up: the history ends here (the model reports the same Panic leaf, with an empty snapshot)
+		h.items = append(h.items, L(A(0), op))
+		h.obs = append(h.obs, L(L(A(9)), L(LL(nil), LL(nil), LL(nil), LL(nil), LL(nil), LL(nil), LL(nil))))
+		h.sink.Note(fmt.Sprintf("LoadMint panicked: %v", panicked))
+		h.stats["op=restart-panicked"]++
+		return
+	}
 	if err != nil {
 		r = h.failS(err)
 		h.items = append(h.items, L(A(0), op))
@@ -789,10 +820,10 @@ func (h *Hist) OpMint(m mode, q *hMintQ, outs []outSpec, sigKind int64, unknown 
 			h.issued += tot
 			// C03 monitors
 			if q.settlements == 0 {
-				h.sink.Violate("issued-before-payment", "a mint quote yielded signatures before its invoice was paid", op.String(), LL(h.items).String())
+				h.sink.Violate("issued-before-payment"+h.sigSuffix, "a mint quote yielded signatures before its invoice was paid", op.String(), LL(h.items).String())
 			}
 			if q.issued > q.amount*uint64(q.settlements) {
-				h.sink.Violate("issued-more-than-paid", fmt.Sprintf("quote of %d sat, %d settlement(s), %d sat issued", q.amount, q.settlements, q.issued), op.String(), LL(h.items).String())
+				h.sink.Violate("issued-more-than-paid"+h.sigSuffix, fmt.Sprintf("quote of %d sat, %d settlement(s), %d sat issued", q.amount, q.settlements, q.issued), op.String(), LL(h.items).String())
 			}
 			if q.key != nil && sigKind != 1 && len(sigs) > 0 {
 				h.sink.Violate("nut20-signature-not-enforced", "a quote locked to a public key was issued without a valid signature over the outputs", op.String(), LL(h.items).String())
@@ -815,7 +846,7 @@ func (h *Hist) inputsOf(ins []inSpec) (cashu.Proofs, []S) {
 
 // truly valid: the input is a genuine, exact re-presentation of a held proof
 func genuine(i inSpec) bool {
-	return i.cKind == 0 && i.sec.held && i.amount == i.sec.amount && i.ks == i.sec.ks && i.cKs == i.sec.ks && i.cAmt == i.sec.amount && !i.long
+	return i.cKind == 0 && i.cSec == nil && i.sec.held && i.amount == i.sec.amount && i.ks == i.sec.ks && i.cKs == i.sec.ks && i.cAmt == i.sec.amount && !i.long
 }
 
 func (h *Hist) consume(ins []inSpec, what string, op S) {
@@ -823,7 +854,7 @@ func (h *Hist) consume(ins []inSpec, what string, op S) {
 		i.sec.consumed++
 		h.redeemed += i.amount
 		if i.sec.consumed > 1 {
-			h.sink.Violate("double-spend:"+what, fmt.Sprintf("secret %d was accepted as an input by %d successful operations", i.sec.h, i.sec.consumed), op.String(), LL(h.items).String())
+			h.sink.Violate("double-spend:"+what+h.sigSuffix, fmt.Sprintf("secret %d was accepted as an input by %d successful operations", i.sec.h, i.sec.consumed), op.String(), LL(h.items).String())
 		}
 		if !genuine(i) {
 			h.sink.Violate("forged-input-accepted:"+what, fmt.Sprintf("input for secret %d is not a genuine proof at its signed amount/keyset but was accepted", i.sec.h), op.String(), LL(h.items).String())
@@ -921,6 +952,12 @@ func (h *Hist) OpMeltQuote(m mode, msat uint64, own *hMintQ, mppPart uint64, uni
 			return
 		}
 		if lq, err := h.wdb.inner.GetMeltQuoteByPaymentRequest(req); err == nil && lq != nil {
+			// learn the quote from the store even when the response was lost - unless it is an older quote for the same request
+			for _, known := range h.lq {
+				if known.id == lq.Id {
+					return
+				}
+			}
 			q.id, q.amount, q.fee = lq.Id, lq.Amount, lq.FeeReserve
 			h.lq[q.h] = q
 		}
@@ -972,10 +1009,10 @@ func (h *Hist) notePaid(q *hMeltQ, op S) {
 				cost := (c.AmountMsat+999)/1000 + c.MaxFee
 				h.paidOut += cost
 				if c.MaxFee > q.fee {
-					h.sink.Violate("fee-limit-exceeds-fee-reserve", fmt.Sprintf("fee limit %d handed to the backend, fee reserve paid by the user %d", c.MaxFee, q.fee), op.String(), LL(h.items).String())
+					h.sink.Violate("fee-limit-exceeds-fee-reserve"+h.sigSuffix, fmt.Sprintf("fee limit %d handed to the backend, fee reserve paid by the user %d", c.MaxFee, q.fee), op.String(), LL(h.items).String())
 				}
 				if burned < cost+h.feesFor(specs) {
-					h.sink.Violate("melt-burned-less-than-paid", fmt.Sprintf("burned %d, backend may spend %d (+ input fees %d)", burned, cost, h.feesFor(specs)), op.String(), LL(h.items).String())
+					h.sink.Violate("melt-burned-less-than-paid"+h.sigSuffix, fmt.Sprintf("burned %d, backend may spend %d (+ input fees %d)", burned, cost, h.feesFor(specs)), op.String(), LL(h.items).String())
 				}
 				break
 			}
@@ -1076,7 +1113,7 @@ func (h *Hist) OpCheck(m mode, secs []*hSecret, unknown int) {
 			} else if h.lockedBy(s) != nil {
 				want = nut07.Pending
 			}
-			if st.State != want {
+			if st.State != want && !s.uncertain {
 				h.sink.Violate("checkstate-wrong", fmt.Sprintf("secret %d reported %v, the history says %v", s.h, st.State, want), op.String(), LL(h.items).String())
 			}
 		}
@@ -1225,7 +1262,7 @@ func (h *Hist) OpInfo(m mode) {
 
 // finish writes the history as one case.
 func (h *Hist) Finish(nontrivial bool) {
-	if !h.dead {
+	if !h.dead && !h.cuts {
 		// global conservation monitor (C02)
 		if h.issued+h.paidOut > h.extIn+h.intIn+h.redeemed {
 			h.sink.Violate("conservation", fmt.Sprintf("issued %d + paid out %d > received %d + internally settled %d + redeemed %d",
